@@ -12,7 +12,9 @@ fn corpus() -> Vec<&'static str> {
     vec!["foo", "foo#bar", "(say\"hi\")", "(a#b c)", "foo ; c", "; c\nfoo", "(a ; c\n b)", "(a b . c)", "#(1 2 3)", "#u8(1 2 255)", "\"a\\x41;b\\n\"",
          "\"line\\\n   cont\"", "#\\x41 #\\space", "12 -7 1.5e3 #xff", "#:key :k k:", "'(a `b ,c ,@d)", "[a b]", "nil t #nil #t #f", "(a . (b . (c)))",
          "\"\u{3bb}x\"", "\u{3bb}sym", "?a ?\\C-a", "\"\\u03bb\\x41\"", "(1 (2 (3 (4))))", "a\rb\x0cc", "#!fold-case x", "|a b|", "(a .b)", "(a .;c\n)", "(a .;", "(a .[b])", "(a .]", "(.;c\n a)", "(a +;c\n)", "(a -[b])", "1+ -", "(",
-         "\"abc", "#\\", "#(1 2", "(a . )", ")", "#u8(300)", "1e", "#x", "a)b"]
+         "\"abc", "#\\", "#(1 2", "(a . )", ")", "#u8(300)", "1e", "#x", "a)b",
+         "\"\u{e9}\\x01\"", "\"\u{e9}\\xff\"", "\"\\x01\u{e9}\"", "\"\u{e9}\\001\"", "\"a\u{e9}\\nb\"", "\"\\u00e9\\xff\"", "\"\u{e9}\\x01\u{e9}\"", "\"\\351\u{e9}\"", "\"\u{e9}\\^A\"", "\"\\M-a \u{e9}\"", "\"\u{3bb}\\n\"", "\"\u{3bb}\\x41\"", "(\"\u{1f600}\\101\" \"\\x80\")",
+         "#\\newline #\\tab #\\backspace #\\nul #\\delete #\\alarm #\\return #\\escape", "#\\tab", "#\\\u{3bb} ?\u{3bb}", "\u{e9}t\u{e9} (\u{1f600})"]
 }
 
 struct Sched { data: Vec<u8>, pos: usize, chunk: usize, interrupt_every: usize, calls: usize, fail_at: Option<usize> }
